@@ -21,7 +21,8 @@ def upper (k : Bytes) : Bytes := k.map asciiUpper
 def parseVar (n : Bytes) : Option Var :=
   let u := upper n
   [Var.argsGet, .argsPost, .argsPath, .args, .argsNames, .argsGetNames, .argsPostNames, .reqHeaders,
-   .reqHeadersNames, .tx, .matchedVar, .matchedVarName, .matchedVars, .matchedVarsNames, .argsCombinedSize].find? (fun v => v.name == u)
+   .reqHeadersNames, .tx, .matchedVar, .matchedVarName, .matchedVars, .matchedVarsNames, .argsCombinedSize,
+   .reqUriRaw, .reqUri, .reqFilename, .reqBasename, .queryString, .reqMethod, .reqLine, .reqProtocol].find? (fun v => v.name == u)
 
 /-- state machine of macro.compile: `cur` is the current token in reverse, `inMacro` the flag,
     `prev` the previous input byte (for the `input[i-1] == '.'` test), `skip` = the `i++` that
